@@ -24,6 +24,8 @@ impl<'a, 'b, Output: BinaryOutput> AdtSerializer<'a, 'b, Output> {
     ) -> Self {
         assert_eq!(metadata.version, 0);
         context.write_u8(metadata.version);
+        #[cfg(desert_verif)]
+        crate::verif::emit("anew", metadata.version as i64, 0, 0, 0, "");
         Self {
             metadata,
             context,
@@ -36,6 +38,8 @@ impl<'a, 'b, Output: BinaryOutput> AdtSerializer<'a, 'b, Output> {
 
     pub fn new(metadata: &'a AdtMetadata, context: &'b mut SerializationContext<Output>) -> Self {
         context.write_u8(metadata.version);
+        #[cfg(desert_verif)]
+        crate::verif::emit("anew", metadata.version as i64, 1, 0, 0, "");
         // The evolution header precedes the chunks in the stream, so the field names it carries
         // must get their string ids before any string written by the fields.
         let header_names = metadata
@@ -72,6 +76,8 @@ impl<'a, 'b, Output: BinaryOutput> AdtSerializer<'a, 'b, Output> {
             .get(field_name)
             .unwrap_or(&0);
         let requires_buffer = !self.buffers.is_empty();
+        #[cfg(desert_verif)]
+        crate::verif::emit("wf", chunk as i64, requires_buffer as i64, 0, 0, field_name);
         if requires_buffer {
             self.context
                 .push_buffer(self.buffers[chunk as usize].take().unwrap());
@@ -85,6 +91,8 @@ impl<'a, 'b, Output: BinaryOutput> AdtSerializer<'a, 'b, Output> {
     }
 
     pub fn finish(mut self) -> Result<()> {
+        #[cfg(desert_verif)]
+        crate::verif::emit("afin", self.buffers.len() as i64, 0, 0, 0, "");
         if !self.buffers.is_empty() {
             self.write_evolution_header(
                 &self.metadata.evolution_steps,
@@ -101,6 +109,8 @@ impl<'a, 'b, Output: BinaryOutput> AdtSerializer<'a, 'b, Output> {
         constructor_idx: u32,
         serialize_case: impl FnOnce(&mut SerializationContext<Output>) -> Result<()>,
     ) -> Result<()> {
+        #[cfg(desert_verif)]
+        crate::verif::emit("wc", constructor_idx as i64, 0, 0, 0, "");
         self.context.write_var_u32(constructor_idx);
         serialize_case(self.context)
     }
